@@ -24,7 +24,7 @@ from kernel import theory
 from logic import basic, logic
 
 PROP = 'C18'
-IMPORTS = 'TruthTable Alethe Alethe2 AletheRes LaGeneric'
+IMPORTS = 'TruthTable Alethe Alethe2 AletheRes AletheSimp LaGeneric'
 
 A = [Var(n, BoolType) for n in ['p', 'q', 'r', 's', 't']]
 Ta = TVar('a')
@@ -230,43 +230,52 @@ class PF:
         return '(PAtom %d)' % self.atoms[t]
 
 
+_CONNS = None
+
+
+def _conns():
+    return [('and', And), ('or', Or), ('imp', Implies), ('iff', Eq), ('xor', xor)]
+
+
+def kind(f):
+    if f.is_conj():
+        return 'and'
+    if f.is_disj():
+        return 'or'
+    if f.is_implies():
+        return 'imp'
+    if f.is_equals() and f.arg1.get_type() == BoolType:
+        return 'iff'
+    if logic.is_xor(f):
+        return 'xor'
+    return None
+
+
+def variants(f):
+    conns = _conns()
+    out = []
+    k = kind(f)
+    if k:
+        out += [mk(f.arg1, f.arg) for nm, mk in conns if nm != k]
+        out += [Not(mk(f.arg1, f.arg)) for nm, mk in conns if nm != k]
+    if f.is_not() and kind(f.arg):
+        k = kind(f.arg)
+        out += [Not(mk(f.arg.arg1, f.arg.arg)) for nm, mk in conns if nm != k]
+        out += [mk(f.arg.arg1, f.arg.arg) for nm, mk in conns]
+    if logic.is_if(f) and f.args[1].get_type() == BoolType:
+        c, a, b = f.args
+        out += [Not(f), And(Implies(c, a), Implies(Not(c), b)), Or(And(c, a), And(Not(c), b))]
+    if f.is_not() and logic.is_if(f.arg) and f.arg.args[1].get_type() == BoolType:
+        out += [f.arg]
+    return out
+
+
 def shape_items(seed, rounds):
     """Directed family: in a correct instance, the main connective of one argument or premise -- at the top or directly
     under a negation -- is replaced by each of the other binary connectives (the operands stay), and a negation is
     removed / added around it.  A rule that reads the operands of a formula without testing its connective accepts these."""
     import random
     g = G(random.Random(seed * 7919 + 18))
-    conns = [('and', And), ('or', Or), ('imp', Implies), ('iff', Eq), ('xor', xor)]
-
-    def kind(f):
-        if f.is_conj():
-            return 'and'
-        if f.is_disj():
-            return 'or'
-        if f.is_implies():
-            return 'imp'
-        if f.is_equals() and f.arg1.get_type() == BoolType:
-            return 'iff'
-        if logic.is_xor(f):
-            return 'xor'
-        return None
-
-    def variants(f):
-        out = []
-        k = kind(f)
-        if k:
-            out += [mk(f.arg1, f.arg) for nm, mk in conns if nm != k]
-            out += [Not(mk(f.arg1, f.arg)) for nm, mk in conns if nm != k]
-        if f.is_not() and kind(f.arg):
-            k = kind(f.arg)
-            out += [Not(mk(f.arg.arg1, f.arg.arg)) for nm, mk in conns if nm != k]
-            out += [mk(f.arg.arg1, f.arg.arg) for nm, mk in conns]
-        if logic.is_if(f) and f.args[1].get_type() == BoolType:
-            c, a, b = f.args
-            out += [Not(f), And(Implies(c, a), Implies(Not(c), b)), Or(And(c, a), And(Not(c), b))]
-        if f.is_not() and logic.is_if(f.arg) and f.arg.args[1].get_type() == BoolType:
-            out += [f.arg]
-        return out
     items = []
     for _ in range(rounds):
         T = templates(g)
@@ -352,6 +361,90 @@ def res_items(seed, n):
                    ((), [a, Not(a)]), ((), [Not(a), a]), ((), [Not(Not(a)), Not(a)]), ((), [a, Not(Not(Not(a)))]),
                    ((Not(Not(a)),), [Or(a, b), Not(b)]), ((a,), [Or(Not(Not(a)), b), Not(b)])]:
         items.append(('verit_th_resolution', 'res', (tuple(cl), tuple(1 if not p.is_disj() else 2 for p in pv)), [thm(p) for p in pv]))
+    return items
+
+
+SIMP_RULES = ['verit_not_simplify', 'verit_and_simplify', 'verit_or_simplify', 'verit_implies_simplify',
+              'verit_equiv_simplify', 'verit_bool_simplify']
+
+
+def simp_items(seed, rounds):
+    """Directed family for the boolean simplification rules (goal lhs <--> rhs): one correct instance of every case of every
+    rule, and around each: a side wrapped in a further connective, negated, the sides swapped, the main connective of a
+    side (or under its negation) replaced, the right side replaced by a constant or by an operand."""
+    import random
+    r = random.Random(seed * 15485863 + 3)
+    g = G(r)
+    items = []
+
+    def around(rule, lhs, rhs):
+        out = [(lhs, rhs), (rhs, lhs), (Not(lhs), rhs), (lhs, Not(rhs)), (lhs, true), (lhs, false)]
+        R = g.lit()
+        for mk in (Implies, And, Or):
+            out += [(mk(lhs, R), rhs), (mk(R, lhs), rhs), (lhs, mk(rhs, R))]
+        out += [(l2, rhs) for l2 in variants(lhs)]
+        out += [(lhs, r2) for r2 in variants(rhs)]
+        if lhs.is_comb() and len(lhs.args) == 2:
+            out += [(lhs, lhs.args[0]), (lhs, lhs.args[1])]
+        for l2, r2 in out:
+            items.append((rule, 'simp', (Eq(l2, r2),), []))
+    for _ in range(rounds):
+        a, b, c = g.form(1), g.form(1), g.form(1)
+        p, q = r.sample(A, 2)
+        n = r.choice([2, 3, 4])
+        fs = g.forms(n)
+        i = r.randrange(n)
+        j = r.randrange(n)
+        around('verit_not_simplify', Not(false), true)
+        around('verit_not_simplify', Not(true), false)
+        around('verit_not_simplify', Not(Not(a)), a)
+        withtrue = list(fs)
+        withtrue.insert(i, true)
+        around('verit_and_simplify', And(*withtrue), And(*fs))
+        around('verit_and_simplify', And(*(fs + [fs[i]])), And(*[f for k, f in enumerate(fs) if f not in fs[:k]]))
+        withfalse = list(fs)
+        withfalse.insert(i, false)
+        around('verit_and_simplify', And(*withfalse), false)
+        around('verit_or_simplify', Or(*withfalse), Or(*fs))
+        around('verit_or_simplify', Or(*withtrue), true)
+        clash = list(fs)
+        clash.insert(j, Not(fs[i]) if r.random() < 0.5 or not fs[i].is_not() else fs[i].arg)
+        around('verit_and_simplify', And(*clash), false)
+        around('verit_or_simplify', Or(*clash), true)
+        around('verit_or_simplify', Or(*clash), Or(*fs))
+        around('verit_and_simplify', And(*([Not(And(*fs))] + fs)), false)
+        around('verit_and_simplify', And(*([a, Not(And(*fs))] + fs)), false)
+        around('verit_and_simplify', And(*([Not(And(*fs[1:]))] + fs)), false)
+        perm = list(fs)
+        r.shuffle(perm)
+        around('verit_or_simplify', Or(*(fs + [fs[i]])), Or(*perm))
+        around('verit_or_simplify', Or(*fs), Or(*perm[:-1]))
+        around('verit_implies_simplify', Implies(Not(a), Not(b)), Implies(b, a))
+        around('verit_implies_simplify', Implies(false, a), true)
+        around('verit_implies_simplify', Implies(a, true), true)
+        around('verit_implies_simplify', Implies(true, a), a)
+        around('verit_implies_simplify', Implies(a, false), Not(a))
+        around('verit_implies_simplify', Implies(a, a), true)
+        around('verit_implies_simplify', Implies(Not(a), a), a)
+        around('verit_implies_simplify', Implies(a, Not(a)), Not(a))
+        around('verit_implies_simplify', Implies(Implies(a, b), b), Or(a, b))
+        around('verit_equiv_simplify', Eq(Not(a), Not(b)), Eq(a, b))
+        around('verit_equiv_simplify', Eq(a, a), true)
+        around('verit_equiv_simplify', Eq(a, Not(a)), false)
+        around('verit_equiv_simplify', Eq(Not(a), a), false)
+        around('verit_equiv_simplify', Eq(true, a), a)
+        around('verit_equiv_simplify', Eq(a, true), a)
+        around('verit_equiv_simplify', Eq(false, a), Not(a))
+        around('verit_equiv_simplify', Eq(a, false), Not(a))
+        around('verit_bool_simplify', Not(Implies(a, b)), And(a, Not(b)))
+        around('verit_bool_simplify', Not(Or(a, b)), And(Not(a), Not(b)))
+        around('verit_bool_simplify', Not(And(a, b)), Or(Not(a), Not(b)))
+        around('verit_bool_simplify', Implies(a, Implies(b, c)), Implies(And(a, b), c))
+        around('verit_bool_simplify', Implies(Implies(a, b), b), Or(a, b))
+        around('verit_bool_simplify', And(a, Implies(a, b)), And(a, b))
+        around('verit_bool_simplify', And(Implies(a, b), a), And(a, b))
+        around('verit_bool_simplify', And(Implies(a, b), Implies(c, b)), And(a, b))
+        around('verit_bool_simplify', Implies(Implies(a, b), Implies(b, c)), Implies(And(Implies(a, b), b), c))
     return items
 
 
@@ -945,7 +1038,7 @@ def run_check(tier, seed):
     g = G(r)
     registry = sorted(k for k in theory.global_macros if k.startswith('verit_'))
     run.cov['registry'] = dict(verit_rules=len(registry), exercised=len(templates(g)),
-                               modelled_in_coq=RULES_MODELLED)
+                               modelled_in_coq=RULES_MODELLED + SIMP_RULES)
     n_rounds = 25 if tier == 'quick' else 300
     exprs, meta = [], []
     mexprs, mmeta = [], []
@@ -962,6 +1055,7 @@ def run_check(tier, seed):
                 items.append((rule, variant, a2, p2))
     items.extend(shape_items(seed, 4 if tier == 'quick' else 40))
     items.extend(res_items(seed, 150 if tier == 'quick' else 3000))
+    items.extend(simp_items(seed, 2 if tier == 'quick' else 25))
     if True:
         if True:
             for rule, variant, a2, p2 in items:
@@ -983,7 +1077,7 @@ def run_check(tier, seed):
                     run.stat('template_rejected:' + rule)
                 key = (rule, repr([sstr(x) for x in (a2[0] if rule == 'verit_th_resolution' else a2)]), repr([sstr(p) for p in p2]))
                 run.count(key, nontrivial=acc)
-                if rule in RULES_MODELLED:
+                if rule in RULES_MODELLED or rule in SIMP_RULES:
                     pf2 = PF()
                     try:
                         gp2 = [pf2.tr(p.prop) for p in p2]
@@ -992,7 +1086,7 @@ def run_check(tier, seed):
                             call = 'accept_res %s %s %s' % (g_list(ga), g_list(['%d' % k_ for k_ in a2[1]]), g_list(gp2))
                         else:
                             ga = [pf2.tr(x) for x in a2]
-                            call = 'accept_all %s %s %s' % (g_str(rule), g_list(ga), g_list(gp2))
+                            call = '%s %s %s %s' % ('accept_simp' if rule in SIMP_RULES else 'accept_all', g_str(rule), g_list(ga), g_list(gp2))
                         gexp = 'None' if not acc else '(Some %s)' % pf2.tr(th.prop)
                         mexprs.append('(match %s, %s with Some a, Some b => if pf_eqb a b then 1 else 0 | None, None => 1 | _, _ => 0 end)'
                                       % (call, gexp))
